@@ -466,6 +466,62 @@ def run_det_case(c, timeout_s=120.0):
                     c.impl = "differ file:%s" % nm
                     return
             c.impl = "same rc=0 out=%d files=%d" % (len(whole[1]), len(whole[3]))
+        elif c.op == "detdist":
+            # detdist <rows name:seq,...> <model> <rmgaps> <gapmode> <rmamb> <alpha num/den|0> <r1|_> <r2|_>:
+            # `goalign compute distance` against the LIBRARY call with the same options (dna.DistMatrix through the
+            # harness): every printed entry is the library's float rounded to 12 decimals
+            rows, model, rmgaps, gapmode, rmamb, alpha, r1, r2 = [str(x) for x in c.args[:8]]
+            gamma = "0" if alpha == "0" else "1"
+            rng4 = "-1,-1,-1,-1" if r1 == "_" else "%s,%s" % (r1.replace(":", ","), r2.replace(":", ","))
+            line = "\t".join(["distmatrix", model, rmgaps, gapmode, rmamb, gamma, alpha if alpha != "0" else "1", "_", rng4, rows])
+            lib = _worker_run(os.path.join(BUILD, "harness"), [(0, line)], 20.0).get(0, "?")
+            argv = ["compute", "distance", "-m", model]
+            if rmgaps == "1":
+                argv.append("-r")
+            if gapmode != "0":
+                argv += ["--gap-mut", gapmode]
+            if rmamb == "1":
+                argv.append("--rm-ambiguous")
+            if alpha != "0":
+                num, den = (alpha.split("/") + ["1"])[:2]
+                argv += ["--alpha", repr(float(num) / float(den))]
+            if r1 != "_":
+                argv += ["--range1", r1, "--range2", r2]
+            fa = "".join(">%s\n%s\n" % tuple(r.split(":", 1)) for r in rows.split(","))
+            cli = exec_goalign(argv, fa.encode(), {}, timeout_s)
+            if not lib.startswith("ok "):
+                c.impl = ("same rc=%s out=0 files=0" % cli[0]) if cli[0] != 0 else "differ library=%s command-line=rc0" % lib[:20]
+                return
+            if cli[0] != 0:
+                c.impl = "differ library=ok command-line=rc%s" % cli[0]
+                return
+            import struct as _st
+            mat = [[_st.unpack(">d", bytes.fromhex(x))[0] for x in r.split(",")] for r in lib[3:].split(";")]
+            lines = [l for l in cli[1].decode("utf-8", "replace").split("\n") if l != ""]
+            names = [r.split(":", 1)[0] for r in rows.split(",")]
+            if len(lines) != len(mat) + 1 or lines[0].strip() != str(len(mat)):
+                c.impl = "differ shape"
+                return
+            for i, l in enumerate(lines[1:]):
+                f = l.split("\t")
+                if f[0] != names[i] or len(f) != len(mat) + 1:
+                    c.impl = "differ row %d" % i
+                    return
+                for j, txt in enumerate(f[1:]):
+                    x = mat[i][j]
+                    if x != x:
+                        ok = txt == "NaN"
+                    elif x in (float("inf"), float("-inf")):
+                        ok = txt in ("+Inf", "-Inf", "Inf") and (txt.startswith("-") == (x < 0))
+                    else:
+                        try:
+                            ok = abs(float(txt) - x) <= 5.1e-13 * max(1.0, abs(x))
+                        except ValueError:
+                            ok = False
+                    if not ok:
+                        c.impl = "differ entry %d,%d library=%r command-line=%s" % (i, j, x, txt)
+                        return
+            c.impl = "same rc=0 out=%d files=0" % len(cli[1])
         elif c.op == "detgz":
             # detgz <stdin> <file flag> <argv...>: what a command writes to a file must not depend on the file being
             # written compressed (.gz) or not, nor on where the other outputs go
